@@ -106,7 +106,9 @@ func (w *Walker) Walk(
 	ctx, cancelFunc := context.WithCancel(ctx)
 	w.allCancel = cancelFunc
 
-	// populate info map
+	// populate info map for all selected nodes before starting any routine:
+	// a routine that completes early looks up its dependants in the map
+	w.nodeMutex.Lock()
 	for _, node := range w.graph.nodes {
 		if !node.GetIsSelected() {
 			// skip unselected targets
@@ -121,6 +123,14 @@ func (w *Walker) Walk(
 			done:   doneCh,
 			ready:  readyCh,
 			cancel: cancelCh,
+		}
+	}
+	w.nodeMutex.Unlock()
+
+	for _, node := range w.graph.nodes {
+		if !node.GetIsSelected() {
+			// skip unselected targets
+			continue
 		}
 
 		w.wait.Add(1)
